@@ -1,16 +1,19 @@
 #!/bin/sh
 # usage: tools/seedone.sh <seed dir, e.g. seeded/C06/r2-3> <CHECK> [tier]   -- run one check against one stored seeded change
+# (scratch worktree of /repo HEAD + a private copy of /verif, so nothing here is rewritten)
 set -e
 V=$(cd "$(dirname "$0")/.." && pwd)
 S=$1; C=$2; T=${3:-quick}
-WT=/tmp/so-$(echo "$S-$C" | tr '/' '-')
+TAG=$(echo "$S-$C" | tr '/' '-')
+WT=/tmp/so-$TAG; VC=/tmp/sovc-$TAG
 git -C /repo worktree remove --force "$WT" >/dev/null 2>&1 || true
 git -C /repo worktree add --detach "$WT" HEAD -q
 git -C "$WT" apply "$V/$S/patch.diff" || git -C "$WT" apply --3way "$V/$S/patch.diff"
-cd "$V"
+rsync -a --delete --exclude .git --exclude seeded --exclude evidence --exclude '.lock-*' "$V/" "$VC/"
+cd "$VC"
 set +e
-MIDGARD_REPO="$WT" VERIF_EVIDENCE_DIR="/tmp/so-ev-$C" ./check "$C" --tier "$T" | grep -E "^VIOLATION|^  what|^KNOWN|^TOOL|exit [0-9]" | head -8
+MIDGARD_REPO="$WT" VERIF_EVIDENCE_DIR="/tmp/so-ev-$TAG" ./check "$C" --tier "$T" | grep -E "^VIOLATION|^  what|^KNOWN|^TOOL|exit [0-9]" | head -8
 set -e
+cd "$V"
 git -C /repo worktree remove --force "$WT"
-rm -rf "/tmp/so-ev-$C"
-/venv/bin/python "$V/tools/setup.py" --translate-only >/dev/null 2>&1
+rm -rf "/tmp/so-ev-$TAG" "$VC"
